@@ -190,8 +190,12 @@ CommaSep(ss) ==
   ELSE IF Len(ss) = 1 THEN ss[1]
   ELSE ss[1] \o <<Sym(",")>> \o CommaSep(Tail(ss))
 
+\* two of the type names `is` takes are keywords with a token of their own (is(): consume(Ident, Function,
+\* Null)): as an OPERAND `null` is a literal and `function` is no expression at all, after `is` both are names
+KwTypeNames == {"null", "function"}
 LeafTok(t) ==
   CASE t.k = "lit" -> Tok(t.tag, t.v)
+    [] t.k = "ty" /\ t.v \in KwTypeNames -> Tok(t.v, t.v)
     [] OTHER -> Tok("Ident", t.v)       \* id, ty
 
 \* Body(t, R(_,_)): the tokens of t with its direct sub-expressions rendered
@@ -290,4 +294,50 @@ Sexpr(t) ==
 \* ===========================================================================
 \* Statement and program parsing (ParseProgram, C07/C11/C13) goes below this
 \* line; nothing above depends on it.
+
+\* ------------------------------------------------------------ expression sites
+\* The places where the statement grammar (src/parser.go: statement, printStatement, parseRule, parseFunction,
+\* and the primaries array, object, computedMember, call, match, group) calls expression().  The grammar of
+\* expressions is context free: the SAME token sequence means the SAME tree at every site, and the expression
+\* ends where the site's terminator stands (a token that is no infix operator).  A site is described by program
+\* text around the expression and by the tree the hook VerifProgSexpr prints around the expression's tree:
+\*   kind "stmt": a statement  pre E post  in a BEGIN block; tree (prog (rule BeginRule - (block  tpre E tpost )))
+\*   kind "fn":   function kk9() { pre E post };               tree (prog (function kk9 () (block  tpre E tpost )))
+\*   kind "pat":  a rule  pre E post  (E is the rule's pattern); tree (prog  tpre E tpost )
+\* term: the token after E ("EOF": nothing follows).  nofirst: "{" where E must not START with a curly bracket (there
+\* the statement grammar looks at the first token before it calls expression(): `{` opens a block).
+ExprSite(name, kind, pre, post, tpre, tpost, term, nofirst) ==
+  [name |-> name, kind |-> kind, pre |-> pre, post |-> post, tpre |-> tpre, tpost |-> tpost, term |-> term, nofirst |-> nofirst]
+ExprSites == <<
+  ExprSite("print", "stmt", "print ", "", "(print ", ")", "}", ""),
+  ExprSite("print-first", "stmt", "print ", ", 1", "(print ", " (num 1))", ",", ""),
+  ExprSite("print-last", "stmt", "print 1, ", "", "(print (num 1) ", ")", "}", ""),
+  ExprSite("if", "stmt", "if (", ") print \"T\"; else print \"F\"", "(if ", " (print (str \"T\")) (print (str \"F\")))", ")", ""),
+  ExprSite("while", "stmt", "while (", ") { print \"T\"; break }", "(while ", " (block (print (str \"T\")) (break)))", ")", ""),
+  ExprSite("for-init", "stmt", "for (", "; false; 0) {}", "(for ", " false (num 0) (block ))", ";", ""),
+  ExprSite("for-cond", "stmt", "for (0; ", "; 0) { print \"T\"; break }", "(for (num 0) ", " (num 0) (block (print (str \"T\")) (break)))", ";", ""),
+  ExprSite("for-post", "stmt", "for (n9 = 0; n9 < 1; ", ") n9 = n9 + 1",
+           "(for (= (id n9) (num 0)) (< (id n9) (num 1)) ", " (expr (= (id n9) (+ (id n9) (num 1)))))", ")", ""),
+  ExprSite("for-in", "stmt", "for (q9 in ", ") print \"it\", q9", "(forin (id q9) ", " (print (str \"it\") (id q9)))", ")", ""),
+  ExprSite("statement", "stmt", "", "", "(expr ", ")", "}", "{"),
+  ExprSite("argument", "stmt", "print idf(", ")", "(print (call (id idf) ", "))", ")", ""),
+  ExprSite("argument-last", "stmt", "print ids(1, ", ")", "(print (call (id ids) (num 1) ", "))", ")", ""),
+  ExprSite("item-first", "stmt", "print [", ", 1][0]", "(print ([ (arr ", " (num 1)) (num 0)))", ",", ""),
+  ExprSite("item-last", "stmt", "print [1, ", "][1]", "(print ([ (arr (num 1) ", ") (num 1)))", "]", ""),
+  ExprSite("object-value", "stmt", "print {k: ", "}.k", "(print (. (obj (\"k\" ", ")) (name k)))", "}", ""),
+  ExprSite("object-value-first", "stmt", "print {k: ", ", j: 1}.k", "(print (. (obj (\"k\" ", ") (\"j\" (num 1))) (name k)))", ",", ""),
+  ExprSite("index", "stmt", "print r9[", "]", "(print ([ (id r9) ", "))", "]", ""),
+  ExprSite("match-subject", "stmt", "print match (", ") { z9 => z9 }", "(print (match ", " (case ((id z9)) (expr (id z9)))))", ")", ""),
+  ExprSite("case-body", "stmt", "print match (1) { z9 => ", " }", "(print (match (num 1) (case ((id z9)) (expr ", "))))", "}", "{"),
+  ExprSite("case-body-first", "stmt", "print match (1) { 2 => 0, z9 => ", ", 3 => 0 }",
+           "(print (match (num 1) (case ((num 2)) (expr (num 0))) (case ((id z9)) (expr ", ")) (case ((num 3)) (expr (num 0)))))", ",", "{"),
+  ExprSite("group", "stmt", "print (", ")", "(print ", ")", ")", ""),
+  ExprSite("return", "fn", "return ", "", "(return ", ")", "}", ""),
+  ExprSite("pattern", "pat", "", " { print \"T\" }", "(rule PatternRule ", " (block (print (str \"T\"))))", "{", "{"),
+  ExprSite("pattern-alone", "pat", "", "", "(rule PatternRule ", " (print ))", "EOF", "{")
+>>
+
+\* expression() called where the tokens toks are followed by the terminator term
+ParseAtSite(toks, term) ==
+  IF term = "EOF" THEN PExpr(toks, 1, PrecAssign, {}) ELSE PExpr(toks \o <<Sym(term)>>, 1, PrecAssign, {})
 =============================================================================
